@@ -1,0 +1,19 @@
+//go:build verif
+
+// Contracts for the deductive verifier under /verif (comment-only; never compiled into oxy).
+package forward
+
+//@ type StateListener
+//@   immutable next stateListener
+
+//@ functype forward.URLForwardingStateListener
+//@   params u state
+//@   modifies everything
+//@   maypanic
+
+//@ func (*StateListener).ServeHTTP
+//@   props C16
+//@   requires req != nil && s != nil
+//@   modifies everything
+//@   ensures paired: calls(s.stateListener) == 2 && callarg(s.stateListener, 0, 1) == 0 && callarg(s.stateListener, 1, 1) == 1 && calls(s.next.ServeHTTP) == 1
+//@   ensures_panic paired_when_forwarding_aborts: calls(s.next.ServeHTTP) == 1 ==> calls(s.stateListener) == 2 && callarg(s.stateListener, 1, 1) == 1
